@@ -551,7 +551,7 @@ def llh2xyz(lat, lon, ellht=0, ellipsoid=grs80):
     lon = radians(angular_typecheck(lon))
     # Calculate Ellipsoid Radius of Curvature in the Prime Vertical - nu
     if lat == 0:
-        nu = grs80.semimaj
+        nu = ellipsoid.semimaj
     else:
         nu = ellipsoid.semimaj/(sqrt(1 - ellipsoid.ecc1sq * (sin(lat)**2)))
     # Calculate x, y, z
